@@ -1011,8 +1011,7 @@ def pick_elem(ctx, toks, const_len):
     for c in cands:
         e = element_of(E, c)
         if e is not None and not (isinstance(E.resolve(e), IntTy) and E.resolve(e).bits == 8): opts.append(e)
-    for e in E.elems:
-        if not (isinstance(E.resolve(e), IntTy) and E.resolve(e).bits == 8): opts.append(e)
+    for e in E.elems: opts.append(e)   # a configured one-byte element type (bool, char) is a legitimate unit
     if const_len is not None: opts = [e for e in opts if const_len % E.sizeof(e) == 0]
     if opts:
         opts.sort(key=lambda e: E.sizeof(e))
